@@ -9,6 +9,9 @@ ENRH = os.path.join(HARNESS, "target", "release", "enrh")
 WORK = os.path.join(ROOT, "work")
 NCPU = os.cpu_count() or 4
 TLA_CP = "/opt/veriftools/tla/tla2tools.jar:/opt/veriftools/tla/CommunityModules-deps.jar"
+# exit statuses that mean "the code under test brought the process down" (abort, segfault, bus error, illegal instruction,
+# Rust's panic-abort status); anything else non-zero (e.g. SIGKILL by the OOM killer) is a tool error
+CRASH_CODES = (-6, -11, -7, -4, 134, 139, 135, 132, 101)
 
 
 class ToolError(Exception):
@@ -78,7 +81,7 @@ def exec_scripts(scripts, outdir, chunk_events=3000, est=None):
         if rc == 3:
             hangs.append(("hang", pair[0], None))
             out_files.append(pair)
-        elif rc < 0 or rc in (134, 139, 101):
+        elif rc in CRASH_CODES:
             # the library brought the process down (abort / stack overflow / segfault): that is data, not a tool
             # error. Re-run the chunk one script per process to find the culprit(s) and keep the traces of the rest.
             sf, tf = pair
@@ -94,7 +97,7 @@ def exec_scripts(scripts, outdir, chunk_events=3000, est=None):
                     good.append(t1)
                 elif p.returncode == 3:
                     hangs.append(("hang", s1, s))
-                elif p.returncode < 0 or p.returncode in (134, 139, 101):
+                elif p.returncode in CRASH_CODES:
                     hangs.append(("crash", s1, s))
                 else:
                     raise ToolError("harness failed on %s: %s" % (s1, p.stderr[-2000:]))
